@@ -81,6 +81,17 @@ def run(ck):
             if kind == "path" and (b"\0" in x + y):
                 continue
             cases.append("intern\t%s\ti%s,i%s,i%s,g5:7,i%s" % (kind, x.hex(), y.hex(), x.hex(), y.hex()))
+    # every one-character text, each interned twice, in three orders (a table indexed by the character must still
+    # compare the text), and every pair of two-character texts over a small alphabet
+    for kind, top in (("str", 128), ("bytes", 256), ("path", 256)):
+        lo = 1 if kind == "path" else 0
+        allb = ["i%02x" % b for b in range(lo, top)]
+        cases.append("intern\t%s\t%s" % (kind, ",".join(allb + allb)))
+        cases.append("intern\t%s\t%s" % (kind, ",".join(allb[::-1] + allb)))
+        sh = allb[:]; rng.shuffle(sh)
+        cases.append("intern\t%s\t%s" % (kind, ",".join(sh + allb + ["g5:7"] + sh)))
+    two = ["i%02x%02x" % (a, b) for a in (0x30, 0x70, 0x41, 0x61) for b in (0x30, 0x70, 0x31, 0x71)]
+    cases.append("intern\tstr\t%s" % ",".join(two + two[::-1]))
     # a few very long / very large ones
     big = []
     for _ in range(6 if thorough else 2):
